@@ -582,6 +582,11 @@ def load_facts(extra_flags=(), repo=None):
         except Exception:
             pass
     _FACTS[key] = fx
+    try:
+        import q
+        q.FX = fx
+    except Exception:
+        pass
     return fx
 
 
